@@ -11,3 +11,10 @@ add('C18', 'Hypothesis-generated ladders of arguments on/around every branch swi
     'Oracles are the stated inequalities with a rounding allowance, exact equality outside the band, and Lipschitz continuity of '
     'value and jax.grad between neighbouring ladder points. Sampling only; no exhaustiveness claimed.',
     'Rounding allowance 8*ulp*max(|x|,|y|,width); subnormal arguments excluded (XLA flushes them); trusts numpy for the true min/max/abs.')
+add('C17', 'Hypothesis-generated function families with analytically known roots, brackets, guesses, settings and execution modes; closed-form oracle',
+    'Generated search over eight function families (monotone, multi-root, flat, steep power law), brackets of either orientation with and '
+    'without sign change, end-point roots, guesses inside/outside, tolerances, iteration caps that force the failure exit, and '
+    'jit / vmap / un-jitted execution. Oracle: analytically known roots, re-evaluated residual, NaN iff no sign change, gradient vs '
+    'closed-form implicit-function value. Sampling; functions outside the families are not covered.',
+    'End values within 64 ulp of the added terms are treated as sign-ambiguous (either outcome accepted); function values at the '
+    'ends limited to 1e-20..1e20; x_tol >= 16 ulp of the bracket scale; non-NaN required only when max_iters >= 4*log2(width/x_tol)+10.')
